@@ -60,10 +60,13 @@ enum Op
     OP_STOP,
     OP_TRIG,
     OP_GET,
+    OP_CLOSE, /* the driver's close on a camera in whatever state (C17: it stops the streamer itself); last op of script A, no script B */
     OP_COUNT
 };
-static const char* const op_names[OP_COUNT] = { "on", "off", "start", "stop", "trig", "get" };
+static const char* const op_names[OP_COUNT] = { "on", "off", "start", "stop", "trig", "get", "close" };
 
+
+static int g_closed; /* the camera object is gone */
 #define MAXOPS 64
 static struct
 {
@@ -102,6 +105,8 @@ obj_name(int kind, int obj)
 {
     if (obj < 0)
         return "-";
+    if (g_closed)
+        return "?";
     switch (kind) {
         case DS_LOCK:
         case DS_TRYLOCK:
@@ -164,6 +169,7 @@ latest_streamer(void)
 static void
 print_digest(void)
 {
+    if (g_closed) { printf("closed"); return; }
     struct SimulatedCamera* s = H.sim;
     int own = detsched_lock_owner(&s->im.lock);
     char a[32], b[32], st[32];
@@ -195,6 +201,7 @@ static uint64_t
 digest(void* ctx)
 {
     (void)ctx;
+    if (g_closed) return 1;
     struct SimulatedCamera* s = H.sim;
     uint64_t d = 1469598103934665603ull;
     uint64_t v[] = { (uint64_t)s->streamer.is_running, (uint64_t)s->properties.input_triggers.frame_start.enable,
@@ -269,7 +276,7 @@ on_terminal(void* ctx, int code)
     else
         /* a frame call waiting for a frame nobody triggers and no stop: not a violation of the property */
         printf("NOTE frame-call-blocked-without-stop %s A=%s B=%s en=%d\n", what, a, b,
-               (int)H.sim->properties.input_triggers.frame_start.enable);
+               g_closed ? -1 : (int)H.sim->properties.input_triggers.frame_start.enable);
 }
 
 /* ------------------------------------------------------------------ oracle */
@@ -327,6 +334,11 @@ do_op(int who, int op)
                 ++H.trig_begun;
             enum DeviceStatusCode e = camera_execute_trigger(H.cam);
             printf("r %c trig %s\n", r, e == Device_Ok ? "ok" : "err");
+        } break;
+        case OP_CLOSE: {
+            enum DeviceStatusCode e = simcam_close_camera(H.cam);
+            g_closed = 1;
+            printf("r %c close %s\n", r, e == Device_Ok ? "ok" : "err");
         } break;
         case OP_GET: {
             uint8_t buf[256];
@@ -419,8 +431,9 @@ static int
 run_case(char* line)
 {
     char id[64] = "", a[512] = "-", b[512] = "-", sched[8192] = "-", policy[32] = "fair";
-    int dfs = 0;
+    int dfs = 0, kind = BasicDevice_Camera_Empty, binning = 1;
     long limit = 4000;
+    g_closed = 0;
     for (char* tok = strtok(line, " \t\n"); tok; tok = strtok(0, " \t\n")) {
         if (!strcmp(tok, "case"))
             continue;
@@ -436,6 +449,10 @@ run_case(char* line)
             dfs = atoi(tok + 4);
         else if (!strncmp(tok, "limit=", 6))
             limit = atol(tok + 6);
+        else if (!strncmp(tok, "kind=", 5))
+            kind = !strcmp(tok + 5, "random") ? BasicDevice_Camera_Random : !strcmp(tok + 5, "sin") ? BasicDevice_Camera_Sin : BasicDevice_Camera_Empty;
+        else if (!strncmp(tok, "bin=", 4))
+            binning = atoi(tok + 4);
         else if (!id[0])
             snprintf(id, sizeof id, "%s", tok);
     }
@@ -464,7 +481,7 @@ run_case(char* line)
     cfg.on_terminal = on_terminal;
     detsched_init(&cfg);
 
-    H.cam = simcam_make_camera(BasicDevice_Camera_Empty);
+    H.cam = simcam_make_camera((enum BasicDeviceKind)kind);
     H.sim = containerof(H.cam, struct SimulatedCamera, camera);
     thread_init(&H.thread_b);
     {
@@ -474,7 +491,7 @@ run_case(char* line)
         props.shape.x = 8;
         props.shape.y = 8;
         props.pixel_type = SampleType_u8;
-        props.binning = 1;
+        props.binning = (uint8_t)binning;
         props.exposure_time_us = 1000;
         camera_set(H.cam, &props);
     }
@@ -485,9 +502,11 @@ run_case(char* line)
     printf("\n");
     detsched_print_schedule(stdout);
     printf("deviations %zu\n", detsched_deviations());
-    free(H.sim->im.frame_data);
-    free(H.sim->im.render_data);
-    free(H.sim);
+    if (!g_closed) {
+        free(H.sim->im.frame_data);
+        free(H.sim->im.render_data);
+        free(H.sim);
+    }
     free(s);
     return 0;
 }
